@@ -32,7 +32,10 @@ RULE = ('(a) blobs generated to satisfy OutInv: trees of depth 1-5 with '
         'lists, runner-ups on an inferred level, null numbers, no cells, '
         'non-uniform flag); (c) real run_mapping runs on generated mapping '
         'problems (depth 1-5, name tables, quoted names, 0..3 runners-up, '
-        'flatten, drop_level, bootstrap_iteration 1). non-trivial = >=2 '
+        'flatten, drop_level, bootstrap_iteration 1, 12-23 cells in chunks of '
+        '1-3); (d) floats through %.4f incl. exact ties; nested values with '
+        'numpy scalars / tuples / integer sets / arrays through '
+        'clean_for_json; id lists through re_order_blob. non-trivial = >=2 '
         'levels and (a runner-up list of length >=1 or an inferred level or '
         'a name table); distinct by canonical JSON of the case')
 TRUSTED = ['Python csv module and h5py read back what pandas / h5py wrote',
